@@ -94,8 +94,22 @@ ExpandMut(k, mut, a) ==
     [] mut = "flip"      -> V(f, FlipBit(pr, a), Extra0)
     [] mut = "flipr"     -> V(f, FlipBit(pr, RndNat(500 + a, 8 * Len(pr))), Extra0)
 
+\* ring keys at infinity (zero-blinding digit commitments): << header, position of the infinity key per ring >>
+InfCase(k) ==
+  CASE k = 1 -> << << 64, 0 >>, << 1 >> >>                                   \* ring of 2, last key
+    [] k = 2 -> << << 64, 1 >>, << 3 >> >>                                   \* ring of 4, last key
+    [] k = 3 -> << << 64, 1 >>, << 1 >> >>                                   \* ring of 4, second key
+    [] k = 4 -> << << 64, 1 >>, << 2 >> >>                                   \* ring of 4, third key
+    [] k = 5 -> << << 96, 0 >> \o U64To8(FromNat(1000)), << 1 >> >>          \* with a minimum value
+    [] k = 6 -> << << 64, 3 >>, << 3, 2 >> >>                                \* two rings: explicit digit 3 H, derived digit 2 * 4 H
+    [] k = 7 -> << << 66, 2 >>, << 1, 1 >> >>                                \* exponent 2, rings of 4 and 2
+InfProof(k) == RfInfProof(InfCase(k)[1], HPt, InfCase(k)[2], Extra0)
+
 Expand(c) ==
   CASE c[1] = "mut"  -> ExpandMut(c[3], c[4], c[5])
+    [] c[1] = "inf"  -> LET f == InfProof(c[3]) IN
+                        IF c[4] = 0 THEN VN(f, f.proof, Extra0)
+                        ELSE V(f, RfSetScalar(f, 4 * (Len(f.rs) - 1) + f.secidx[Len(f.rs)] + 1, One), Extra0)    \* another s on the infinity key: same family
     [] c[1] = "tiny" -> LET f == RfTinyProof(Extra0, c[3] = 1) IN VN(f, f.proof, Extra0)
 
 \* descriptors: << "mut", verdict, base, mutation, argument >>
@@ -124,6 +138,8 @@ Cases ==
   \cup { M("rej", 5, "flipr", a) : a \in 1..(IF Thorough THEN 400 ELSE 12) }
   \cup { M("rej", 6, "flipr", a) : a \in 1..(IF Thorough THEN 100 ELSE 2) }
   \cup { << "tiny", "acc", 0 >>, << "tiny", "rej", 1 >> }
+  \cup { << "inf", "rej", k, v >> : k \in 1..7, v \in { 0, 1 } }
+ProbeInf == { << "inf", "rej", k, v >> : k \in 1..7, v \in { 0, 1 } }
 ProbeCases == { M("acc", 4, "ok", 0), << "tiny", "acc", 0 >>, << "tiny", "rej", 1 >>, M("rej", 4, "splusn", 1), M("rej", 14, "ok", 0) }
 
 -----------------------------------------------------------------------------
